@@ -325,6 +325,8 @@ def _evaluate(ctx, o, meta):
     if "ir" in o:
         ctx.count("jobspec", "jobs-checked")
         ctx.count("jobspec_fields", "compared", o["ir"]["fields"])
+        if o["ir"].get("twins"):
+            ctx.count("jobspec", "entry-of-a-step-with-the-same-variant-id", o["ir"]["twins"])
     for v in o.get("violations", []):
         ctx.violation(v["what"], dict(_record(meta), signature=v["sig"], trace=v.get("trace") or o.get("gen_trace")), v["sig"])
     return True
